@@ -51,6 +51,26 @@ impl View {
             f64::INFINITY
         }
     }
+    /// Classification against an absolute threshold: Some((kept, kappa of the kept part)) if
+    /// every singular value lies decisively above (> 8·thr) or below (<= thr/8) the threshold
+    /// and the threshold lies above the noise floor of a backward-stable decomposition.
+    pub fn decisive_rank(&self, thr: f64, eps: f64) -> Option<(usize, f64)> {
+        if !self.finite() || self.sv.is_empty() || self.sigma1() <= 0.0 {
+            return None;
+        }
+        let noise = 8.0 * eps * self.sigma1() * ((self.n * self.m) as f64).sqrt();
+        if 64.0 * noise > thr {
+            return None;
+        }
+        if self.sv.iter().any(|s| *s > thr / 8.0 && *s < thr * 8.0) {
+            return None;
+        }
+        let kept = self.sv.iter().filter(|s| **s > thr).count();
+        if kept == 0 {
+            return None;
+        }
+        Some((kept, self.sigma1() / self.sv[kept - 1]))
+    }
     pub fn finite(&self) -> bool {
         self.phi_w.all_finite() && self.sv.iter().all(|s| s.is_finite())
     }
